@@ -123,6 +123,14 @@ class Translator:
       # `sig //= lambda: e`: pymtl3 compiled  def _lambda__<sig>(): <sig> @= e  from this very AST (ComponentLevel3)
       tree = info[4]
     else:
+      # GenDAGPass registers the text of a net block in linecache under the file name "Net (writer is <repr>": two blocks
+      # whose writers print alike (equal constants) share that name and only the LAST text survives - not recoverable
+      try:
+        fnames = [g.__code__.co_filename for g in s.top._dag.genblks]
+        if blk in s.top._dag.genblks and fnames.count(blk.__code__.co_filename) > 1:
+          raise Outside('generated source not recoverable (file name shared by several net blocks)')
+      except AttributeError:
+        pass
       try:
         lines, _ = inspect.getsourcelines(blk)
         tree = ast.parse(textwrap.dedent('\n'.join(l.rstrip('\r\n') for l in lines)))
